@@ -265,6 +265,20 @@ func (f *Frame) tableValue(tbl *constTable, key AInt, path string, t types.Type,
 	if len(key.conds) > 0 || len(keys) == 0 || len(keys) > 256 {
 		return f.an.u.symbolic(f.key+name, t)
 	}
+	if _, isFn := t.Underlying().(*types.Signature); isFn && !tbl.isMap && len(keys) >= 2 && len(keys) <= 8 {
+		// a table of functions indexed by a symbolic key: the set of its entries, selected by the key
+		var alts []AFunc
+		for _, k := range keys {
+			fv, ok := at(k).(AFunc)
+			if !ok {
+				return f.an.u.symbolic(f.key+name, t)
+			}
+			alts = append(alts, fv)
+		}
+		sel := f.an.u.sym(fmt.Sprintf("%ssel:%s@%s", f.key, tbl.g.Name(), name), 0, int64(len(keys))-1)
+		f.assume(atomEQ(affSym(sel), key.a))
+		return AFuncSet{key: f.key + name, alts: alts, sel: sel}
+	}
 	switch {
 	case isBoolType(t):
 		form := formConst(false)
